@@ -83,9 +83,15 @@ def run(ctx, build, verdict, ev):
         sub = rnd[: ctx.n(200, 2000)] + special
         aa = np.array([p[0] for p in sub])
         bb = np.array([p[1] for p in sub])
+        ka, kb = aa.copy(), bb.copy()
         with np.errstate(all="ignore"):
-            rr = norm.compute(aa, bb)
-        assert rr.shape == aa.shape
+            rr = np.asarray(norm.compute(aa, bb))
+        if not (all(vlib.same_float(x, y) for x, y in zip(aa, ka)) and all(vlib.same_float(x, y) for x, y in zip(bb, kb))):
+            verdict.add_violation(f"{name}:argument-overwritten", f"{name}.compute(arrays) modifies its arguments in place", {"norm": name})
+            aa, bb = ka.copy(), kb.copy()
+        if rr.shape != aa.shape:
+            verdict.add_violation(f"{name}:array-shape", f"{name}.compute changes the shape of array arguments: {aa.shape} -> {rr.shape}", {"norm": name})
+            rr = np.resize(rr, aa.shape)
         for a, b, r in zip(aa, bb, rr):
             lits.append(f"({vlib.fhex(a)}, {vlib.fhex(b)}, {vlib.fhex(r)}, false)")
             index.append((name, "array", float(a), float(b), float(r)))
